@@ -319,6 +319,7 @@ impl<SP: StorageProvider, PS: PolicyStore> Transaction<SP, PS> {
     {
         // Must always start a new perspective for merges.
         if let Some(p) = Option::take(&mut self.perspective) {
+            self.phead = None;
             let seg = storage.write(p)?;
             self.heads.insert(seg.head_id(), seg.head_location()?);
         }
